@@ -409,7 +409,7 @@ func printEvent(w io.Writer, color, symbol, verb string, events int) {
 }
 
 func standaloneOccurrenceFMT(s string, i int) string {
-	return fmt.Sprintf(s, i)
+	return standaloneSnapPath(s, i)
 }
 
 func snapshotOccurrenceFMT(s string, i int) string {
